@@ -91,6 +91,16 @@ def norm_state(js):
     return (heap, names)
 
 
+def pad_brackets(content):
+    # the canonical text keeps a set's or map's content apart from its angle
+    # brackets when it begins with '<' or ends with '>' (so that it reads back)
+    if content.startswith("<"):
+        content = " " + content
+    if content.endswith(">"):
+        content = content + " "
+    return content
+
+
 def render_cell(heap, cell, top=False):
     t, v = cell
     if t == "i":
@@ -99,9 +109,9 @@ def render_cell(heap, cell, top=False):
     if k == "list":
         return "[" + ", ".join(render_cell(heap, x) for x in items) + "]"
     if k == "set":
-        return "<<" + ", ".join(render_cell(heap, x) for x in items) + ">>"
+        return "<<" + pad_brackets(", ".join(render_cell(heap, x) for x in items)) + ">>"
     if k == "map":
-        return "<<<" + ", ".join(f"{kk} => {render_cell(heap, x)}" for kk, x in zip(keys, items)) + ">>>"
+        return "<<<" + pad_brackets(", ".join(f"{kk} => {render_cell(heap, x)}" for kk, x in zip(keys, items))) + ">>>"
     if k == "obj":
         return "<*" + ", ".join(f"{MEMBER[kk]}={render_cell(heap, x)}" for kk, x in zip(keys, items)) + "*>"
     if k == "str":
@@ -600,6 +610,11 @@ OPERATOR_FORMS = [
     "(fn(q) [...q])(@1)", "(fn(q) [0, ...q, 0])(@1)", "for e in @1 do e end",
     "if @1 then 1 else 2", "@1 == @1", "@1 + @1", "@1 - @1", "[@1, @2]", "<<<@1 => @2>>>",
     "string(@1) + @2", "(fn(x, y) x)(@1, @2)", "(fn(args...) args)(@1, @2)",
+    # the call mechanism itself: spread arguments in every position, with further arguments after them
+    "(fn(args...) 1)(...@1, @2)", "(fn(args...) 1)(@2, ...@1)", "(fn(args...) 1)(...@1, ...@2)",
+    "(fn(a = 0, b = 0, rest...) 1)(...@1, @2, @3)", "(fn(a = 0, b = 0) 1)(...@1)", "(fn(a = 0, b = 0) 1)(...@1, b = @2)",
+    "[...@1, @2]", "[...@1, ...@2]", "[@2, ...@1, @3]", "@1 !> (fn(a, rest...) 1)(...@2, @3)",
+    "<*m = fn(self, rest...) 1*>->m(...@1, @2)", "def [u, v] = @1", "for [u, v] in @1 do u end",
 ]
 
 
